@@ -17,8 +17,11 @@ ASSUMPTIONS = [
     "a value type is 'supported' by a target iff it is listed in the ir_types of one of the target's register classes "
     "(arch.info.value_classes) and has an entry in arch.info.type_infos; modules mentioning any other value type are outside the property and are skipped (counted)",
     "every generated module is checked with ppci.irutils.verify_module before use; a module the verifier rejects is a harness error, never a violation",
-    "cases are compiled in batches of <= BATCH functions per module (renamed apart); when a batch fails every member is recompiled alone and the "
-    "failure is attributed to the members that fail alone (to the batch if none does)",
+    "cases are compiled in batches of <= 24 functions per module (functions renamed apart, identical globals/externals shared; C-corpus, L4, "
+    "pressure and misc cases one module each); when ir_to_object fails on a batch, every member is compiled separately with one reused "
+    "ppci.codegen.CodeGenerator (an attribution accelerator, never the verdict): members that fail there are confirmed alone through "
+    "ir_to_object -- the first (lowest-order) one per locus key and worker; later ones at an already confirmed key are counted, not re-confirmed -- "
+    "and the remaining members are recompiled together through ir_to_object; a batch whose members all pass alone is reported with the batch as witness",
     "optimisation levels whose optimised module prints to the same IR text as an already compiled level of the same batch are counted as covered by that compilation",
     "failures inside ppci.api.optimize are the optimiser's (C02/C03) and are counted as unclassified here, except CPU time-outs",
     "ir_to_object is called with its defaults (no debug info, opt='speed'), as ppci.api.cc does",
@@ -253,8 +256,9 @@ def feature_of(exc):
         inner = [f for f in frames if "/ppci/" in f.f_code.co_filename]
         kinds = []
         if inner:
-            for name in ("arg_loc", "arg", "push_reg"):
-                v = inner[-1].f_locals.get(name)
+            loc = inner[-1].f_locals
+            for name in (("push_reg",) if loc.get("push_reg") is not None else ("arg_loc", "arg")):
+                v = loc.get(name)
                 if v is not None:
                     kinds.append("%s=%s" % (name, type(v).__name__))
         if kinds:
@@ -372,7 +376,7 @@ def run_batch(p, target, idents, order0, witnessed):
                 p.add()
                 report(p, target, level, idents[0], fail, order0)
             else:
-                singles(p, target, level, idents, order0, witnessed)
+                singles(p, target, level, list(enumerate(idents)), order0, witnessed)
             continue
         if st == "unsupported":
             if len(idents) == 1:
@@ -396,10 +400,10 @@ def run_batch(p, target, idents, order0, witnessed):
         passed(p, target, level, idents, size)
 
 
-def singles(p, target, level, idents, order0, witnessed):
-    """Every member alone through the public entry point."""
+def singles(p, target, level, members, order0, witnessed):
+    """Every member [(index in batch, ident)] alone through the public entry point; -> whether any failed."""
     found = False
-    for k, i in enumerate(idents):
+    for k, i in members:
         try:
             st, size = compile_once([i], target, level)
             if st == "ok":
@@ -424,7 +428,7 @@ def attribute(p, target, level, idents, fail, order0, witnessed):
         e = drive(i, target, level)
         (failing if e is not None else passing).append((k, i, e))
     if not failing:
-        if not singles(p, target, level, idents, order0, witnessed):
+        if not singles(p, target, level, list(enumerate(idents)), order0, witnessed):
             p.count("batch_only_failures")
             report(p, target, level, idents, fail, order0)
         return
@@ -452,7 +456,11 @@ def attribute(p, target, level, idents, fail, order0, witnessed):
             if st == "ok":
                 passed(p, target, level, rest, size)
         except Failure as f2:
-            if len(rest) == 1 or not singles(p, target, level, rest, order0, witnessed):
+            if len(rest) == 1:
+                p.add()
+                witnessed.add(full_key(target, f2, rest[0]))
+                report(p, target, level, rest[0], f2, order0 + passing[0][0])
+            elif not singles(p, target, level, [(k, i) for k, i, _ in passing], order0, witnessed):
                 p.count("batch_only_failures")
                 report(p, target, level, rest, f2, order0)
 
